@@ -39,6 +39,12 @@ check("C12", "exploration", "explore+gparse",
       "Trusted: the effective-limit clamping rules are taken from the documentation (0 = unlimited for line and field size); four unbounded chunk/trailer states are recorded known findings.",
       "DESIGN.md section 3, C12")
 
+check("C02", "exploration", "bench+rfc_response",
+      "exhaustive product request head x application program (status x declared length x chunk sequence x delivery x failure point) x worker class x configuration, executed through the real worker handle() over a real socketpair with a pipelined second request, judged by an independent strict response reader",
+      "Every cell of the product (30 request heads, ~1700 programs per head at chunk sequences <=2 (thorough <=3), 8 worker/config combinations: sync, gthread and the AsyncWorker code shared by gevent/eventlet, keep-alive on/off, sendfile on/off) is run on the real code path that writes to the socket; the bytes received are parsed by vlib/rfc_response.py and checked for exactly-one well-formed response, body == application output cut to Content-Length, consistent delimiting, and the persistence rule; failing programs must not yield a response that looks complete.",
+      "Trusted: the response reader (Appendix B); well-behaved is defined narrowly (no body for HEAD/204/304, declared length <= produced bytes); gevent/eventlet hubs and TLS are not exercised.",
+      "DESIGN.md section 3, C02; Appendix B")
+
 ALL = ["C%02d" % i for i in range(1, 21)]
 for pid in ALL:
     if pid not in CHECKS:
@@ -55,6 +61,8 @@ m = {
         "add_only": True,
     },
     "engines": [
+        {"name": "bench+rfc_response", "path": "vlib/bench.py", "serves_properties": ["C02", "C05", "C08", "C09", "C15", "C19"],
+         "kind_free_text": "real SyncWorker/ThreadWorker/AsyncWorker.handle() in-process over real sockets, deterministic scripted client; exhaustive product enumeration"},
         {"name": "explore+gparse", "path": "vlib/gparse.py", "serves_properties": ["C01", "C06", "C07", "C12"],
          "kind_free_text": "bounded-exhaustive input/segmentation/program enumeration on the real RequestParser"},
     ],
